@@ -41,17 +41,23 @@ BACKEND_BOUNDS = {"nelder-mead", "powell", "l-bfgs-b", "tnc", "slsqp", "cobyla",
 BACKEND_CONSTRAINTS = {"cobyla", "slsqp", "differential_evolution"}
 NO_GRADIENT = {"nelder-mead", "powell", "cobyla", "differential_evolution"}
 KINDS = ["eq", "lower", "upper", "two", "free"]
-OPTIONS = {"none": None, "empty": {}, "dict": {"ftol": 1e-3}, "list": ["some option"]}
+HYP_KINDS = [*KINDS, "narrow"]
+OPTIONS = {"none": None, "empty": {}, "dict": {"ftol": 1e-3}, "list": ["some option"],
+           "own-limit": {"maxiter": 250, "maxfun": 250, "ftol": 1e-3}}
 TOL = 1e-9
 
 
 def kind_bounds(kind: str, base: float, width: float) -> tuple[float, float]:
+    if kind == "narrow":  # a two-sided band that is narrow relative to its magnitude, not an equality
+        return (100.0 + base, 100.0 + base + 5e-4)
     return {"eq": (base, base), "lower": (base, np.inf), "upper": (-np.inf, base + width), "two": (base, base + width),
             "free": (-np.inf, np.inf)}[kind]
 
 
 def build_config(case: dict[str, Any]) -> EnOptConfig:
     n = case["n"]
+    if case["method"] == "differential_evolution" and case["options"] in ("dict", "own-limit"):
+        case = {**case, "options": "empty"}  # SciPy options of minimize() are not arguments of differential_evolution
     cfg: dict[str, Any] = {
         "variables": {"initial_values": case["x0"], "lower_bounds": case["lb"], "upper_bounds": case["ub"]},
         "optimizer": {"method": case["method"], "options": OPTIONS[case["options"]]},
@@ -161,26 +167,34 @@ def test_points(case: dict[str, Any], free: np.ndarray) -> list[np.ndarray]:
     # equality manifold of the (affine) configured problem in the free variables
     rows, rhs = [], []
     x0 = np.array(case["x0"], dtype=np.float64)
+    def target(lo: float, hi: float) -> float | None:
+        if lo == hi:
+            return lo
+        if np.isfinite(lo) and np.isfinite(hi) and hi - lo < 1e-2:  # noqa: PLR2004
+            return 0.5 * (lo + hi)  # interior of a narrow band
+        return None
+
     if case["nl"]:
         a_nl = np.array(case["a_nl"], dtype=np.float64).reshape(len(case["nl"]), -1)
         for r, b, (lo, hi) in zip(a_nl, case["b_nl"], case["nl"]):
-            if lo == hi:
-                rows.append(r); rhs.append(lo - b)  # noqa: E702
+            if target(lo, hi) is not None and np.any(r != 0):
+                rows.append(r); rhs.append(target(lo, hi) - b)  # noqa: E702
     if case["lin"]:
         a = np.array(case["A"], dtype=np.float64)
         for r, (lo, hi) in zip(a, case["lin"]):
-            if lo == hi and not np.any(r[~free] != 0):
-                rows.append(r[free]); rhs.append(lo - float(r[~free] @ x0[~free]))  # noqa: E702
+            if target(lo, hi) is not None and not np.any(r[~free] != 0):
+                rows.append(r[free]); rhs.append(target(lo, hi) - float(r[~free] @ x0[~free]))  # noqa: E702
     if rows:
         m, b = np.array(rows), np.array(rhs)
         pinv = np.linalg.pinv(m)
         for p in base[4:8]:
             q = p - pinv @ (m @ p - b)
             pts.append(q)
-            pts.append(q + 1e-3 * np.ones(nf))
+            # (the plug-in treats points closer than ~1e-5 relative as the same point, so test points are kept well apart)
+            pts.append(q + 4e-3 * (1.0 + np.abs(q)))
     else:
         pts.extend(p.copy() for p in base[4:12])
-    return pts[:12]
+    return pts[:16]
 
 
 def run_case(case: dict[str, Any]) -> dict[str, Any]:  # noqa: C901, PLR0912, PLR0915
@@ -239,7 +253,10 @@ def run_case(case: dict[str, Any]) -> dict[str, Any]:  # noqa: C901, PLR0912, PL
             raise Violation(sig, f"max_iterations={case['max_iterations']} but the back-end receives {got!r} "
                             f"(options given as {OPTIONS[case['options']]!r})", case)
     if isinstance(OPTIONS[case["options"]], dict) and method != "differential_evolution":
+        limit_key = "maxfun" if method == "tnc" else "maxiter"
         for key, val in OPTIONS[case["options"]].items():
+            if key == limit_key and case["max_iterations"] is not None:
+                continue  # max_iterations takes precedence (checked above)
             check((kw.get("options") or {}).get(key) == val, "options-dropped", f"option {key} not forwarded", case)
     # ---- feasibility equivalence and Jacobians
     for xf in test_points(case, free):
@@ -368,8 +385,8 @@ def hypothesis_shard(item: dict[str, Any]) -> Collector:
         case["lb"], case["ub"] = lb, ub
         case["x0"] = [draw(st.sampled_from([0.0, 0.5, -0.5, 1.0])) for _ in range(n)]
         c_n, l_n = draw(st.integers(0, 3)), draw(st.integers(0, 3))
-        case["nl"] = [list(kind_bounds(draw(st.sampled_from(KINDS)), draw(num), draw(st.sampled_from([0.5, 2.0])))) for _ in range(c_n)]
-        case["lin"] = [list(kind_bounds(draw(st.sampled_from(KINDS)), draw(num), draw(st.sampled_from([0.5, 2.0])))) for _ in range(l_n)]
+        case["nl"] = [list(kind_bounds(draw(st.sampled_from(HYP_KINDS)), draw(num), draw(st.sampled_from([0.5, 2.0])))) for _ in range(c_n)]
+        case["lin"] = [list(kind_bounds(draw(st.sampled_from(HYP_KINDS)), draw(num), draw(st.sampled_from([0.5, 2.0])))) for _ in range(l_n)]
         case["a_nl"] = [draw(num) for _ in range(c_n * nf)]
         case["b_nl"] = [draw(num) for _ in range(c_n)]
         rows = []
